@@ -86,13 +86,16 @@ type FileDesc struct {
 }
 
 type E2ECase struct {
-	Mode        string    `json:"mode"` // fault | kill | conc | aged
-	File        *FileDesc `json:"file,omitempty"`
-	Fault       string    `json:"fault,omitempty"` // trunc0 | trunc1 | half | last | remove
-	DelayMs     int       `json:"delay_ms,omitempty"`
-	Listing     []cfile   `json:"cache_listing_after_kill,omitempty"`
-	Stagger     []int     `json:"stagger_ms,omitempty"` // one staticcheck process per element, started after that many ms
-	TrimDelayMs int       `json:"trim_delay_ms,omitempty"`
+	Mode          string    `json:"mode"` // fault | kill | conc | aged
+	File          *FileDesc `json:"file,omitempty"`
+	Fault         string    `json:"fault,omitempty"`         // trunc0 | trunc1 | half | last | remove
+	KillAtFiles   int       `json:"kill_at_files,omitempty"` // kill: SIGKILL once this many entry files exist (0: after delay_permille of the cold-run time), then extra_ms
+	ExtraMs       int       `json:"extra_ms,omitempty"`
+	DelayPermille int       `json:"delay_permille,omitempty"` // kill: delay as a fraction of the measured cold-run time
+	DelayMs       int       `json:"delay_ms,omitempty"`       // kill: the delay actually used (informative)
+	Listing       []cfile   `json:"cache_listing_after_kill,omitempty"`
+	Stagger       []int     `json:"stagger_ms,omitempty"` // one staticcheck process per element, started after that many ms
+	TrimDelayMs   int       `json:"trim_delay_ms,omitempty"`
 }
 
 type e2eFile struct {
@@ -102,12 +105,13 @@ type e2eFile struct {
 }
 
 type e2eEnv struct {
-	root  string
-	mod   string
-	tmpl  string
-	ref   []byte
-	refRC int
-	files []e2eFile
+	root   string
+	mod    string
+	tmpl   string
+	ref    []byte
+	refRC  int
+	files  []e2eFile
+	coldMs int // wall time of the cold reference run
 }
 
 var (
@@ -140,7 +144,9 @@ func e2eSetup() (*e2eEnv, error) {
 			}
 		}
 		os.MkdirAll(env.tmpl, 0o755)
+		t0 := time.Now()
 		out, stderr, rc, err := env.run(env.tmpl)
+		env.coldMs = int(time.Since(t0).Milliseconds())
 		if err != nil {
 			e2eErr = fmt.Errorf("reference run: %v", err)
 			return
@@ -352,9 +358,33 @@ func (env *e2eEnv) eval(c E2ECase) (res result) {
 			res.infra = err.Error()
 			return
 		}
-		time.Sleep(time.Duration(c.DelayMs) * time.Millisecond)
+		exited := make(chan error, 1)
+		go func() { exited <- cmd.Wait() }()
+		t0 := time.Now()
+		var werr error
+		waited := false
+		if c.KillAtFiles > 0 {
+		poll:
+			for time.Since(t0) < 10*time.Minute {
+				if len(entryFiles(listCacheFull(dir))) >= c.KillAtFiles {
+					break
+				}
+				select {
+				case werr = <-exited:
+					waited = true
+					break poll
+				case <-time.After(time.Millisecond):
+				}
+			}
+			time.Sleep(time.Duration(c.ExtraMs) * time.Millisecond)
+		} else {
+			time.Sleep(time.Duration(env.coldMs*c.DelayPermille/1000) * time.Millisecond)
+		}
+		c.DelayMs = int(time.Since(t0).Milliseconds())
 		cmd.Process.Signal(syscall.SIGKILL)
-		werr := cmd.Wait()
+		if !waited {
+			werr = <-exited
+		}
 		killed := werr != nil && !cmd.ProcessState.Exited()
 		c.Listing = listCache(dir)
 		res.artefact = c.Listing
@@ -580,13 +610,19 @@ func TestE2EFaults(t *testing.T) {
 	})
 }
 
+// onShard spreads the expensive sub-checks of the quick tier over the shards
+// (every shard would otherwise start several cold staticcheck runs at once).
+func onShard(mod, rem int) bool {
+	return ev.Thorough() || ev.NShards() < mod || ev.Shard()%mod == rem
+}
+
 func e2eProp(t *testing.T, test string, scale float64, min int, gen func(rt *rapid.T) E2ECase) {
 	env := e2eEnvOrSkip(t)
 	if env == nil {
 		return
 	}
 	violated := false
-	over := localBudget("E2E", 30, 300)
+	over := localBudget("E2E", 30, 150)
 	scaled(scale, min, func() {
 		ev.Check(t, test, func(rt *rapid.T) {
 			if violated || over() {
@@ -622,8 +658,22 @@ func TestE2EKill(t *testing.T) {
 	defer timed("TestE2EKill")()
 	ev.Rule(rule)
 	ev.Assume("the delay after which a running staticcheck is killed is not reproducible; the replay file archives the listing (names, sizes) of the cache directory the dead process left behind")
+	if !onShard(2, 0) {
+		return
+	}
 	e2eProp(t, "TestE2EKill", float64(ev.EnvInt("C05_KILL_PCT", 25, 5))/100, 1, func(rt *rapid.T) E2ECase {
-		return E2ECase{Mode: "kill", DelayMs: rapid.IntRange(200, 3500).Draw(rt, "delay_ms")}
+		env, _ := e2eSetup()
+		n := 19
+		if env != nil && len(env.files) > 0 {
+			n = len(env.files)
+		}
+		c := E2ECase{Mode: "kill", KillAtFiles: rapid.IntRange(0, n).Draw(rt, "kill_at_files")}
+		if c.KillAtFiles == 0 {
+			c.DelayPermille = rapid.IntRange(100, 600).Draw(rt, "delay_permille")
+		} else {
+			c.ExtraMs = rapid.SampledFrom([]int{0, 0, 1, 3, 10}).Draw(rt, "extra_ms")
+		}
+		return c
 	})
 }
 
@@ -639,6 +689,9 @@ func genStagger(rt *rapid.T) []int {
 func TestE2EConcurrent(t *testing.T) {
 	defer timed("TestE2EConcurrent")()
 	ev.Rule(rule)
+	if !onShard(4, 1) {
+		return
+	}
 	e2eProp(t, "TestE2EConcurrent", float64(ev.EnvInt("C05_CONC_PCT", 25, 2))/100, 1, func(rt *rapid.T) E2ECase {
 		return E2ECase{Mode: "conc", Stagger: genStagger(rt)}
 	})
@@ -649,6 +702,9 @@ func TestE2EConcurrent(t *testing.T) {
 func TestE2EAgedTrim(t *testing.T) {
 	defer timed("TestE2EAgedTrim")()
 	ev.Rule(rule)
+	if !onShard(4, 3) {
+		return
+	}
 	e2eProp(t, "TestE2EAgedTrim", float64(ev.EnvInt("C05_AGED_PCT", 25, 5))/100, 1, func(rt *rapid.T) E2ECase {
 		return E2ECase{Mode: "aged", Stagger: genStagger(rt), TrimDelayMs: rapid.IntRange(0, 1200).Draw(rt, "trim_delay_ms")}
 	})
